@@ -202,15 +202,28 @@ def run_cmd(cmd, timeout, cwd=None, env=None):
 
 
 def run_translators(names):
-    """Regenerate coq/Gen/*.v from /repo.  Returns list of (name, ok, output)."""
+    """Regenerate coq/Gen/*.v from /repo, in this process (importing pandora costs ~20 s because
+    pandora/interval_tools.py compiles its numba kernels eagerly: one import per check).
+    Returns list of (name, ok, output)."""
+    import contextlib
+    import importlib
+    import io
+
+    tdir = os.path.join(VERIF, "translator")
+    if tdir not in sys.path:
+        sys.path.insert(1, tdir)
     out = []
-    env = dict(os.environ)
-    env["PYTHONPATH"] = REPO
-    env["PANDORA_REPO"] = REPO
     for n in names:
-        rc, text = run_cmd([PY, os.path.join(VERIF, "translator", n + ".py")], 300, cwd=VERIF, env=env)
-        text = "\n".join(l for l in text.split("\n") if "WARNING conda" not in l)
-        out.append((n, rc == 0, text.strip()))
+        buf = io.StringIO()
+        ok = True
+        try:
+            mod = importlib.import_module(n)
+            with contextlib.redirect_stdout(buf):
+                mod.main()
+        except BaseException as exc:  # fail closed; TranslationError, SystemExit, anything
+            ok = False
+            buf.write(f"\nTRANSLATION-ERROR {n}: {type(exc).__name__}: {exc}")
+        out.append((n, ok, buf.getvalue().strip()))
     return out
 
 
